@@ -208,6 +208,11 @@ func Gen(seed uint64, tier string) any {
 		sc.Kind, sc.Parallel = "parallel", 2+r.IntN(3)
 		return sc
 	}
+	if core.Chance(r, 5) {
+		// a request and a chain of answers written and read message by message through Transfer.WriteMsg / ReadMsg
+		sc.Kind, sc.Parallel = "xfrapi", 1+r.IntN(4)
+		return sc
+	}
 	ne := 1 + r.IntN(6)
 	for i := 0; i < ne; i++ {
 		ev := Event{Msg: r.IntN(n), Fault: "none", Prior: "right", Timers: "right", Key: "right", Time: "now"}
@@ -330,6 +335,8 @@ func Run(t *testing.T, scAny any, verbose bool) *core.Result {
 	leak := common.Bubble(t, func() {
 		if sc.Kind == "parallel" {
 			runParallel(sc, res, verbose)
+		} else if sc.Kind == "xfrapi" {
+			runXfrAPI(sc, res, verbose)
 		} else if sc.Kind == "session" && sc.Transport == "udp" {
 			runUDPSession(sc, res, verbose)
 		} else if sc.Kind == "session" {
@@ -838,6 +845,141 @@ func runParallel(sc *Scenario, res *core.Result, verbose bool) {
 	}
 	res.Nontrivial = true
 	res.Class = fmt.Sprintf("parallel/%s/n=%d", strings.ToLower(sc.Alg), sc.Parallel)
+}
+
+// ---------------------------------------------------------------- Transfer.WriteMsg / ReadMsg
+
+// xfrAPI: one party writes a signed request with Transfer.WriteMsg, the other reads it with Transfer.ReadMsg and
+// writes n signed answers, which the first reads one by one. Every message on the wire must be RFC 8945-valid for
+// the MAC of the message before it (none for the request), and every ReadMsg must accept.
+type xfrAPI struct {
+	k      *kernel.K
+	sc     *Scenario
+	res    *core.Result
+	a, b   *simnet.StreamConn
+	fin    int
+	server bool
+}
+
+//go:norace
+func (x *xfrAPI) RunEvent(time.Time) {
+	k, sc := x.k, x.sc
+	keys := map[string]string{keyName: secretGood}
+	n := sc.Parallel
+	fail := func(o, sig, f string, a ...any) {
+		k.Lock()
+		x.res.Fail(o, sig, f, a...)
+		k.Unlock()
+	}
+	defer func() {
+		k.Lock()
+		x.fin++
+		k.Unlock()
+	}()
+	if !x.server {
+		t := &dns.Transfer{Conn: &dns.Conn{Conn: x.a}, TsigSecret: keys}
+		x.a.SetDeadline(time.Now().Add(time.Minute))
+		q := new(dns.Msg)
+		q.SetQuestion("chain.api.test.", dns.TypeSOA)
+		q.Id = 4242
+		q.SetTsig(keyName, sc.Alg, uint16(sc.Fudge), time.Now().Unix())
+		if err := t.WriteMsg(q); err != nil {
+			fail("G2", "transfer-writemsg-failed", "Transfer.WriteMsg of a signed request failed: %v", err)
+			return
+		}
+		for i := 0; i < n; i++ {
+			_, err := t.ReadMsg()
+			k.Lock()
+			x.res.Stats["oracle.G1_transfer_readmsg"]++
+			k.Unlock()
+			if err != nil {
+				fail("G1", "transfer-readmsg-rejected", "Transfer.ReadMsg rejected answer %d of a chain written with Transfer.WriteMsg by the peer, each message covering the MAC of the one before: %v", i+1, err)
+				return
+			}
+		}
+		return
+	}
+	t := &dns.Transfer{Conn: &dns.Conn{Conn: x.b}, TsigSecret: keys}
+	x.b.SetDeadline(time.Now().Add(time.Minute))
+	q, err := t.ReadMsg()
+	if err != nil {
+		fail("G1", "transfer-readmsg-rejected", "Transfer.ReadMsg rejected a request signed by Transfer.WriteMsg: %v", err)
+		return
+	}
+	for i := 0; i < n; i++ {
+		r := new(dns.Msg)
+		r.SetReply(q)
+		r.Answer = append(r.Answer, &dns.TXT{Hdr: dns.RR_Header{Name: q.Question[0].Name, Rrtype: dns.TypeTXT, Class: dns.ClassINET, Ttl: 1}, Txt: []string{"answer " + strconv.Itoa(i)}})
+		r.SetTsig(keyName, sc.Alg, uint16(sc.Fudge), time.Now().Unix())
+		k.Yield("xfrapi.write", i)
+		if err := t.WriteMsg(r); err != nil {
+			fail("G2", "transfer-writemsg-failed", "Transfer.WriteMsg of signed answer %d failed: %v", i+1, err)
+			return
+		}
+	}
+}
+
+type xfrAPIDone struct{ fin *int }
+
+//go:norace
+func (d xfrAPIDone) Check(time.Time) string {
+	if *d.fin == 2 {
+		return "done"
+	}
+	return ""
+}
+
+//go:norace
+func runXfrAPI(sc *Scenario, res *core.Result, verbose bool) {
+	k := kernel.New(kernel.Config{Seed: sc.RunSeed, Strategy: int(sc.RunSeed % kernel.NumStrats), PCTDepth: 2, PCTSpan: 40, Verbose: verbose, MaxSteps: 5000})
+	kernel.SetCurrent(k)
+	defer kernel.SetCurrent(nil)
+	n := simnet.New(k)
+	n.Stream = simnet.StreamLink{MinDelay: time.Millisecond, Jitter: time.Millisecond, SegMode: int(sc.RunSeed % 3)}
+	a, b := n.Pair(true)
+	cli := &xfrAPI{k: k, sc: sc, res: res, a: a, b: b}
+	srv := &xfrAPI{k: k, sc: sc, res: res, a: a, b: b, server: true}
+	fin := 0
+	k.Go("xfrapi-a", xfrAPIShare{cli, &fin})
+	k.Go("xfrapi-b", xfrAPIShare{srv, &fin})
+	out := k.Run(xfrAPIDone{&fin})
+	res.Steps, res.Digest = k.Steps, k.Digest()
+	if verbose {
+		res.Log = k.Log
+	}
+	defer k.Abort()
+	if out != kernel.Finished && res.Verdict == core.OK {
+		res.Verdict, res.Msg = core.Harness, "Transfer API run ended with "+out
+		return
+	}
+	// G2: what was put on the wire is an RFC 8945 chain
+	reqs, _ := oracle.Frames(a.Sent())
+	reps, _ := oracle.Frames(b.Sent())
+	var prior []byte
+	for i, f := range append(append([][]byte{}, reqs...), reps...) {
+		v := oracle.VerifyTSIG(f, map[string]string{keyName: secretGood}, prior, false, uint64(time.Now().Unix()))
+		res.Bump("oracle.G2_transfer_writemsg_chain")
+		if v.Judgable && !v.Valid && res.Verdict == core.OK {
+			res.Fail("G2", "transfer-writemsg-chain:"+strings.ReplaceAll(v.Reason, " ", "-"), "message %d of a conversation written with Transfer.WriteMsg (request, then %d answers) is not RFC 8945-valid for the MAC of the message before it: %s", i+1, sc.Parallel, v.Reason)
+		}
+		prior = v.MAC
+	}
+	res.Nontrivial = true
+	res.Class = fmt.Sprintf("xfrapi/%s/n=%d", strings.ToLower(sc.Alg), sc.Parallel)
+}
+
+// xfrAPIShare runs one party and counts it as finished.
+type xfrAPIShare struct {
+	x   *xfrAPI
+	fin *int
+}
+
+//go:norace
+func (s xfrAPIShare) RunEvent(t time.Time) {
+	s.x.RunEvent(t)
+	s.x.k.Lock()
+	*s.fin++
+	s.x.k.Unlock()
 }
 
 // ---------------------------------------------------------------- sessions
